@@ -16,10 +16,11 @@ Quirks that are modelled because the code has them:
 * consul/etcd keep the token variable (`index` / `revision`) across attempts and only overwrite it
   when the key exists; memberlist reads a fresh version on every attempt (0 when absent);
 * consul's mock accepts a CAS on an absent key for *any* index; etcd compares `Version` (0 if absent);
-* memberlist: `casVersion > 0 && curr.Version != casVersion` is the only mismatch test, so an
-  attempt that read an absent key (version 0) is never rejected; the write is a *merge* into the
-  current value and "no change" is an error that is retried only if `f` returned `retry = true`;
-  a version mismatch is likewise only retried when `f` said `retry = true`;
+* memberlist: `cas && curr.Version != casVersion` is the mismatch test (version 0 = key absent, so
+  the first write of a key is conditional too — this is the repair of finding D4; the old rule is
+  kept as `condWriteMlOld` for the history witness only); the write is a *merge* into the current
+  value and "no change" is an error that is retried only if `f` returned `retry = true`; a version
+  mismatch is likewise only retried when `f` said `retry = true`;
 * consul/etcd retry a conflict regardless of the retry flag;
 * `MultiClient` mirrors the value returned by the *last* invocation of `f` after the primary CAS
   returned nil, with a one-shot function (`retry = false`).
@@ -67,11 +68,8 @@ def readIdx (s : Store α) (k : Key) (idx : Nat) : Nat :=
 inductive Outcome | wrote | conflict | nochange | declined | failed
   deriving DecidableEq, Repr
 
-/-- The conditional write. `merge cur out = none` is memberlist's "no change detected".
-`strict = false` is the code as it is: memberlist only tests the version when `casVersion > 0`.
-`strict = true` is the proposed repair (`cas && curr.Version != casVersion`), kept in the model so
-that the repair can be proved (`ml_cas_chain_fixed`) and tied to a patched tree by flipping one flag. -/
-def condWrite (strict : Bool) (merge : Option α → α → Option α) (s : Store α) (k : Key) (idx : Nat) (out : α) :
+/-- The conditional write. `merge cur out = none` is memberlist's "no change detected". -/
+def condWrite (merge : Option α → α → Option α) (s : Store α) (k : Key) (idx : Nat) (out : α) :
     Store α × Outcome :=
   match s.kind with
   | .consul =>
@@ -85,11 +83,23 @@ def condWrite (strict : Bool) (merge : Option α → α → Option α) (s : Stor
     -- Txn If(Version(key) = revision) Then(Put): evalCmp reads a zero entry when absent; doPut Version+1 / 1
     if s.ver k ≠ idx then (s, .conflict) else (s.set k ⟨out, s.ver k + 1⟩, .wrote)
   | .ml =>
-    -- mergeValueForKey(casVersion = idx)
-    if (strict = true ∨ idx > 0) ∧ s.ver k ≠ idx then (s, .conflict)
+    -- mergeValueForKey(cas = true, casVersion = idx): `if cas && curr.Version != casVersion` → mismatch;
+    -- version 0 = the key did not exist when it was read, and must still not exist
+    if s.ver k ≠ idx then (s, .conflict)
     else match merge (s.val k) out with
       | none => (s, .nochange)
       | some r => (s.set k ⟨r, s.ver k + 1⟩, .wrote)
+
+/-- HISTORY (not the current code): memberlist's rule before the repair of finding D4 (dskit commit
+"memberlist KV CAS on a missing key is not atomic"): `if casVersion > 0 && curr.Version != casVersion`,
+i.e. an attempt that had read an absent key (version 0) was never rejected. Kept only for the
+witness `ml_first_write_not_atomic_history`; nothing in the model of the current code uses it. -/
+def condWriteMlOld (merge : Option α → α → Option α) (s : Store α) (k : Key) (idx : Nat) (out : α) :
+    Store α × Outcome :=
+  if idx > 0 ∧ s.ver k ≠ idx then (s, .conflict)
+  else match merge (s.val k) out with
+    | none => (s, .nochange)
+    | some r => (s.set k ⟨r, s.ver k + 1⟩, .wrote)
 
 /-- What the caller-supplied function returns. -/
 inductive FRet (α : Type)
@@ -130,7 +140,6 @@ structure Cfg (α : Type) where
   budget : Nat                          -- attempts of the primary CAS loop (≥ 1)
   sbudget : Nat                         -- attempts of the mirror CAS loop
   merge : Option α → α → Option α       -- memberlist: merge `out` into the stored value; none = no change
-  mlStrict : Bool := false              -- false: the code as it is; true: the proposed repair of D4
 
 structure Sys (α : Type) where
   pri : Store α
@@ -175,7 +184,7 @@ def commit (cfg : Cfg α) (s : Sys α) (c : Nat) (cl : Call α) (cid att idx : N
   | .decline =>
     { (s.setPh c .idle) with log := mk none before .declined (some true) :: s.log }
   | .write out retry =>
-    match condWrite cfg.mlStrict cfg.merge s.pri cl.key idx out with
+    match condWrite cfg.merge s.pri cl.key idx out with
     | (st, .wrote) =>
       { (s.setPh c (mirrorPhase cfg cl out)) with pri := st, log := mk (some out) (st.val cl.key) .wrote (some true) :: s.log }
     | (_, oc) =>
@@ -184,7 +193,7 @@ def commit (cfg : Cfg α) (s : Sys α) (c : Nat) (cl : Call α) (cid att idx : N
 
 /-- the conditional write of the mirror loop (`writeToSecondary`: `return newValue, false, nil`). -/
 def mcommit (cfg : Cfg α) (s : Sys α) (c : Nat) (k : Key) (v : α) (att idx : Nat) : Sys α :=
-  match condWrite cfg.mlStrict cfg.merge s.sec k idx v with
+  match condWrite cfg.merge s.sec k idx v with
   | (st, .wrote) => { (s.setPh c .idle) with sec := st }
   | (_, _) =>
     if retryable s.sec.kind false = true ∧ att + 1 < cfg.sbudget then s.setPh c (.mreading k v (att + 1) idx) else s.setPh c .idle
